@@ -111,4 +111,7 @@ CLAUSES = [
            rule="CNF grammars by construction x words of length 1-7; every cell (i,j) compared with {A : A =>* w[i..j]} from the span fixpoint; "
                 "non-trivial: >= 2 variables, |w| >= 2 and more than n non-empty cells"),
 ]
+from props import workbench as WB   # noqa: E402
+
+CLAUSES.append(Clause("object_history", WB.cfg_programs, WB.run_cfg, quick=300, thorough=3000, rule=WB.CFG_RULE))
 KNOWN_PREDICATES = {}
